@@ -262,7 +262,7 @@ class Check(core.PropertyCheck):
                 kw["host"] = rng.choice(["h2", "h1.example", "H1"])
             if rng.random() < 0.25:
                 kw["port"] = rng.choice([8080, 81])
-            if rng.random() < 0.04:  # rare: the known ;parameters finding would otherwise cut most histories short
+            if rng.random() < 0.15:
                 kw["params"] = rng.choice(["v=1", "v=2", "s"])
             if rng.random() < 0.5:
                 kw["query"] = rng.choice([(), (("x", "1"),), (("x", "1"), ("t", "6")), (("t", "5"), ("x", "1")), (("x", "2"), ("t", "5")),
@@ -302,7 +302,7 @@ class Check(core.PropertyCheck):
             if rng.random() < 0.5:
                 return r
             r = dict(r)
-            which = rng.choice(["host", "port", "t", "form", "hdr", "path"] * 5 + ["params"])
+            which = rng.choice(["host", "port", "t", "form", "hdr", "path", "params"])
             if which == "host":
                 r["host"] = "h9"
             elif which == "port":
